@@ -1,0 +1,14 @@
+//go:build verif
+
+package workers
+
+// VerifJobCounter exposes the pending-jobs counter to external verification
+// harnesses so that interleavings of its operations can be enumerated on the
+// real implementation. Only compiled with the "verif" build tag.
+type VerifJobCounter struct {
+	c jobCounter
+}
+
+func (v *VerifJobCounter) Set(n int) int64 { return v.c.set(n) }
+func (v *VerifJobCounter) None() bool      { return v.c.none() }
+func (v *VerifJobCounter) Take() bool      { return v.c.take() }
